@@ -375,19 +375,19 @@ func (s *Store) lookupSecretInternal(ctx context.Context, name string) (Secret, 
 	// Note that the winner of the race on the singleflight may time out early,
 	// in which case we want to retry (up to a safety limit) when we discover
 	// the result was due to a context cancellation other than our own.
+	//
+	// If the caller's context doesn't already have a deadline, impose a safety
+	// fallback so requests do not stall forever if the infrastructure is
+	// farkakte. The fallback bounds the whole call, including any retries and
+	// any time spent waiting for another caller's request to finish.
+	if _, ok := ctx.Deadline(); !ok {
+		var cancel context.CancelFunc
+		ctx, cancel = context.WithTimeout(ctx, 5*time.Minute)
+		defer cancel()
+	}
 	for {
-		v, err, _ := s.single.Do("lookup:"+name, func() (any, error) {
-			// If the winning caller's context doesn't already have a deadline,
-			// impose a safety fallback so requests do not stall forever if the
-			// infrastructure is farkakte.
-			dctx := ctx
-			if _, ok := ctx.Deadline(); !ok {
-				var cancel context.CancelFunc
-				dctx, cancel = context.WithTimeout(ctx, 5*time.Minute)
-				defer cancel()
-			}
-
-			sv, err := s.client.Get(dctx, name)
+		ch := s.single.DoChan("lookup:"+name, func() (any, error) {
+			sv, err := s.client.Get(ctx, name)
 			if err != nil {
 				return nil, fmt.Errorf("lookup %q: %w", name, err)
 			}
@@ -401,6 +401,14 @@ func (s *Store) lookupSecretInternal(ctx context.Context, name string) (Secret, 
 			s.logf("[store] added new undeclared secret %q", name)
 			return s.secretLocked(name), nil
 		})
+		var v any
+		var err error
+		select {
+		case <-ctx.Done():
+			return nil, ctx.Err()
+		case res := <-ch:
+			v, err = res.Val, res.Err
+		}
 		if err == nil {
 			return v.(Secret), nil
 		} else if errors.Is(err, context.DeadlineExceeded) || errors.Is(err, context.Canceled) {
